@@ -145,22 +145,21 @@ class BTree(Entity):
         """Look up a key, yielding page read latency for each tree level."""
         self._total_reads += 1
 
-        node = self._root
+        # Pay the page read latency of one root-to-leaf path first, then walk
+        # the tree in one atomic step: a node reference held across a yield
+        # goes stale when a concurrent put splits that node (the keys moved
+        # to the new sibling were reported missing)
         for _ in range(self._depth):
             self._total_page_reads += 1
             yield self._page_read_latency
 
-            if node.leaf:
-                idx = bisect.bisect_left(node.keys, key)
-                if idx < len(node.keys) and node.keys[idx] == key:
-                    return node.values[idx]
-                return None
-
-            # Internal node: find child
+        node = self._root
+        while not node.leaf:
             idx = bisect.bisect_right(node.keys, key)
             node = node.children[idx]
-
-        # Should not reach here, but handle edge case
+        idx = bisect.bisect_left(node.keys, key)
+        if idx < len(node.keys) and node.keys[idx] == key:
+            return node.values[idx]
         return None
 
     def get_sync(self, key: str) -> Any | None:
